@@ -122,7 +122,15 @@ theorem key_on_container_refused (kids : List SS) (sg : Seg) (rest : List Seg) (
 theorem fewer_keys_refused (kids : List SS) (sg : Seg) (rest : List Seg) (n : String) (keys : List String) (ks : List SS)
     (h : findKid sg.name kids = some (.list n keys ks)) (hk : sg.hasKey = true) (hl : sg.keys.length < keys.length) :
     pathVerdict (some kids) (sg :: rest) = .refused := by
-  simp [pathVerdict, h, hk, hl]
+  have : sg.keys.length ≠ keys.length := by omega
+  simp [pathVerdict, h, hk, this]
+
+/-- surplus key components are refused too: dropping them would address another key than the one written -/
+theorem more_keys_refused (kids : List SS) (sg : Seg) (rest : List Seg) (n : String) (keys : List String) (ks : List SS)
+    (h : findKid sg.name kids = some (.list n keys ks)) (hk : sg.hasKey = true) (hl : keys.length < sg.keys.length) :
+    pathVerdict (some kids) (sg :: rest) = .refused := by
+  have : sg.keys.length ≠ keys.length := by omega
+  simp [pathVerdict, h, hk, this]
 
 /-- a name the level does not have is refused -/
 theorem unknown_name_refused (kids : List SS) (sg : Seg) (rest : List Seg) (h : findKid sg.name kids = none) :
@@ -132,6 +140,8 @@ theorem unknown_name_refused (kids : List SS) (sg : Seg) (rest : List Seg) (h : 
 example : pathVerdict (some [.cont "c" [.leaf "x" false], .list "l" ["a", "b"] [.leaf "a" false, .leaf "b" false]])
     [⟨"l", ["1"], true⟩] = .refused := by decide
 example : pathVerdict (some [.cont "c" [.leaf "x" false], .list "l" ["a", "b"] [.leaf "a" false, .leaf "b" false]])
-    [⟨"l", ["1", "2", "3"], true⟩, ⟨"a", [], false⟩] = .ok := by decide
+    [⟨"l", ["1", "2", "3"], true⟩, ⟨"a", [], false⟩] = .refused := by decide
+example : pathVerdict (some [.cont "c" [.leaf "x" false], .list "l" ["a", "b"] [.leaf "a" false, .leaf "b" false]])
+    [⟨"l", ["1", "2"], true⟩, ⟨"a", [], false⟩] = .ok := by decide
 example : pathVerdict (some [.cont "c" [.leaf "x" false]]) [⟨"c", [], false⟩, ⟨"x", [], false⟩, ⟨"y", [], false⟩] = .refused := by decide
 end YangVerif.C13
